@@ -35,6 +35,105 @@ def _start_coverage():
     mon.set_events(mon.COVERAGE_ID, mon.events.LINE)
 
 
+def _bounded_child(Dm, tier, seed, conn):
+    try:
+        conn.send(("ok", Dm.bounded(tier, seed)))
+    except Exception as e:
+        tb = traceback.extract_tb(e.__traceback__)
+        conn.send(("exc", repr(e), [(os.path.realpath(f.filename), f.lineno) for f in tb][-1:],
+                   "".join(traceback.format_exception(type(e), e, e.__traceback__))[-2000:]))
+    conn.close()
+
+
+class _DriverError(Exception):
+    def __init__(self, msg, last, text):
+        Exception.__init__(self, msg)
+        self.last, self.text = last, text
+
+
+def _bounded_in_child(Dm, tier, seed):
+    """The concrete driver runs in a child process: changed library code can take the interpreter down (a SIGBUS from a
+    memory-mapped checkpoint, a segfault in a kernel), which must be reported, not die with the checker."""
+    import signal
+    parent, child = mp.Pipe(duplex=False)
+    p = mp.get_context("fork").Process(target=_bounded_child, args=(Dm, tier, seed, child))
+    p.start()
+    child.close()
+    res = None
+    try:
+        if parent.poll(float(os.environ.get("VF_DRIVER_TIMEOUT", "5400"))):
+            res = parent.recv()
+    except EOFError:
+        res = None
+    p.join(10)
+    if p.is_alive():
+        p.kill()
+        p.join()
+        raise RuntimeError("bounded driver exceeded its time limit")
+    if res is None:
+        code = p.exitcode
+        if code is not None and code < 0:
+            try:
+                nm = signal.Signals(-code).name
+            except ValueError:
+                nm = str(-code)
+            return {"driver": "drivers/%s" % Dm.__name__.split(".")[-1], "label": "bounded", "evaluations": 1, "failures": 1,
+                    "bound": "the driver process was killed by %s while exercising the library" % nm,
+                    "first_failures": [("the interpreter was killed by %s while the driver exercised the library (no Python exception)" % nm, None)],
+                    "not_reproduced_as_input": True}
+        raise RuntimeError("bounded driver process ended without a result (exit code %s)" % code)
+    if res[0] == "ok":
+        return res[1]
+    _tag, msg, last, text = res
+    err = _DriverError(msg, last, text)
+    raise err
+
+
+def _replay_child(L, cand, conn):
+    try:
+        conn.send(("ok", L.replay(cand)))
+    except Exception as e:
+        conn.send(("exc", repr(e)))
+    conn.close()
+
+
+def _replay_in_child(L, cand):
+    """Replays run the real (possibly changed) library with concrete inputs: in a child process, for the same reason as
+    the bounded driver."""
+    import signal
+    parent, child = mp.Pipe(duplex=False)
+    p = mp.get_context("fork").Process(target=_replay_child, args=(L, cand, child))
+    p.start()
+    child.close()
+    res = None
+    try:
+        if parent.poll(float(os.environ.get("VF_REPLAY_TIMEOUT", "1800"))):
+            res = parent.recv()
+    except EOFError:
+        res = None
+    p.join(10)
+    if p.is_alive():
+        p.kill()
+        p.join()
+        return {"reproduced": False, "error": "replay exceeded its time limit"}
+    if res is None:
+        code = p.exitcode
+        if code is not None and code < 0:
+            try:
+                nm = signal.Signals(-code).name
+            except ValueError:
+                nm = str(-code)
+            return {"reproduced": True, "note": "the replay process was killed by %s: the library took the interpreter down on the replayed scenario" % nm}
+        return {"reproduced": False, "error": "replay process ended without a result (exit code %s)" % code}
+    if res[0] == "ok":
+        try:
+            json.dumps(res[1], default=str)
+        except Exception:
+            return {"reproduced": bool(res[1] and res[1].get("reproduced")), "note": "replay record not serialisable"}
+        return res[1]
+    return {"reproduced": False, "error": "replay crashed: %s" % res[1]}
+
+
 def _gen_prims():
     try:
         from . import gen
@@ -236,7 +335,7 @@ def run_check(prop, tier, seed, jobs=None):
         if hasattr(L, "replay"):
             for cand in os_[:6]:
                 try:
-                    rep = L.replay(cand)
+                    rep = _replay_in_child(L, cand)
                 except Exception as e:
                     rep = {"reproduced": False, "error": "replay crashed: %r" % (e,)}
                 cand["replayed"] = rep
@@ -257,19 +356,19 @@ def run_check(prop, tier, seed, jobs=None):
         Dm = importlib.import_module("drivers." + prop)
         if hasattr(Dm, "bounded"):
             try:
-                bounded_res = Dm.bounded(tier, seed)
+                bounded_res = _bounded_in_child(Dm, tier, seed)
             except Exception as e:
                 # an exception raised *inside the library* while the driver exercised it is a failure of the code under
                 # test (natively reproduced); anything else is a defect of the driver -> checker crash
-                tb = traceback.extract_tb(e.__traceback__)
                 root = os.path.realpath(os.environ.get("QUCUMBER_REPO", "/repo"))
-                if tb and os.path.realpath(tb[-1].filename).startswith(root + os.sep):
-                    where = "%s:%d" % (os.path.relpath(os.path.realpath(tb[-1].filename), root), tb[-1].lineno)
+                last = getattr(e, "last", None)
+                if last and last[0][0].startswith(root + os.sep):
+                    where = "%s:%d" % (os.path.relpath(last[0][0], root), last[0][1])
                     bounded_res = {"driver": "drivers/%s" % prop, "label": "bounded", "evaluations": 1, "failures": 1,
                                    "bound": "the driver's first scenario that made the library raise",
-                                   "first_failures": [("the library raised %r at %s" % (e, where), None)]}
+                                   "first_failures": [("the library raised %s at %s" % (e, where), None)]}
                 else:
-                    crashes.append({"cfg": "bounded driver", "error": "".join(traceback.format_exception(type(e), e, e.__traceback__))[-2000:]})
+                    crashes.append({"cfg": "bounded driver", "error": getattr(e, "text", None) or "".join(traceback.format_exception(type(e), e, e.__traceback__))[-2000:]})
     except ModuleNotFoundError:
         pass
     if bounded_res is not None:
@@ -277,13 +376,14 @@ def run_check(prop, tier, seed, jobs=None):
         if bounded_res.get("failures"):
             o = {"name": "%s/bounded-driver" % prop, "short": "bounded-driver", "cfg": None, "status": "violated",
                  "backend": "concrete-driver", "detail": bounded_res.get("first_failures"),
-                 "witness": {"first_failures": bounded_res.get("first_failures")}, "replayed": {"reproduced": True}}
+                 "witness": {"first_failures": bounded_res.get("first_failures")},
+                 "replayed": {"reproduced": not bounded_res.get("not_reproduced_as_input")}}
             kf = _match_known(known, prop, o, o["replayed"])
             if kf is not None:
                 known_hits.append((kf, o))
             else:
                 path = oblmod.write_replay(prop, o)
-                reported.append((o, path, ""))
+                reported.append((o, path, "" if o["replayed"].get("reproduced") else " no-failing-input-found"))
     # conformance sampling of the primitive models against the real torch / numpy (never counted as proof)
     conf = None
     if getattr(L, "MANIFEST", {}).get("engine", "").find("qv-native") >= 0:
